@@ -250,7 +250,13 @@ class Lexer:
 
     def t_ANY_INTEGER(self, token):
         r'-?\d+'
-        token.value = int(token.value)
+        try:
+            token.value = int(token.value)
+        except ValueError:
+            # Python limits the number of digits it converts.
+            self.errors.append(
+                ('Integer literal is too long.', token.lexer.lineno))
+            token.value = 0
         return token
 
     # Read in a string while respecting the following escape sequences:
